@@ -668,7 +668,64 @@ pub(crate) fn allocate_registers(ops: &[Op]) -> Result<Vec<AllocatedAbstractOp>,
         })
     }
 
+    #[cfg(fuellabs_sway_verif)]
+    crate::verif_hooks::observe_regalloc(|| verif_dump(&updated_ops, &buf, &pool));
+
     Ok(buf)
+}
+
+/// Plain-data dump of an allocation for the verification observer (`--cfg fuellabs_sway_verif`).
+#[cfg(fuellabs_sway_verif)]
+fn verif_dump(
+    ops: &[Op],
+    allocated: &[AllocatedAbstractOp],
+    pool: &RegisterPool,
+) -> Vec<crate::verif_hooks::RegAllocOp> {
+    use crate::asm_lang::{ControlFlowOp, JumpType};
+    let name = |r: &VirtualRegister| (r.to_string(), r.is_virtual());
+    ops.iter()
+        .zip(allocated)
+        .map(|(op, alloc)| {
+            let mut d = crate::verif_hooks::RegAllocOp {
+                text: op.opcode.to_string(),
+                comment: op.comment.clone(),
+                allocated_text: alloc.opcode.to_string(),
+                defs: op.def_registers().into_iter().map(name).collect(),
+                uses: op.use_registers().into_iter().map(name).collect(),
+                ..Default::default()
+            };
+            for r in op.registers() {
+                if r.is_virtual() {
+                    if let Some(m) = pool.get_register(r) {
+                        d.assignment.push((r.to_string(), m.to_string()));
+                    }
+                }
+            }
+            match &op.opcode {
+                Either::Left(VirtualOp::MOVE(dst, src)) => {
+                    d.mov = Some((dst.to_string(), src.to_string()))
+                }
+                Either::Left(VirtualOp::RVRT(_)) => d.no_fallthrough = true,
+                Either::Left(_) => {}
+                Either::Right(ControlFlowOp::Label(l)) => d.label = Some(l.to_string()),
+                Either::Right(ControlFlowOp::Jump { to, type_ }) => {
+                    let kind = match type_ {
+                        JumpType::Unconditional => {
+                            d.no_fallthrough = true;
+                            "always"
+                        }
+                        JumpType::NotZero(_) => "if-not-zero",
+                        JumpType::Call => "call",
+                    };
+                    d.jump = Some((kind.to_string(), to.to_string()));
+                }
+                Either::Right(ControlFlowOp::JumpToAddr(_))
+                | Either::Right(ControlFlowOp::ReturnFromCall { .. }) => d.no_fallthrough = true,
+                Either::Right(_) => {}
+            }
+            d
+        })
+        .collect()
 }
 
 /// Use the stack generated by the coloring algorithm to figure out a register assignment for each
